@@ -37,7 +37,8 @@ EXPLANATION = (
     "peer held for ever), over all activation sequences. (X3) The timer callback's header is "
     "the literal 40 line and is followed by close. (X4) All call_later delays resolve to "
     "positive numeric constants. Timer accuracy of the event loop is trusted. "
-    "(X3b) No strict decode / int() on peer bytes is reachable in the timer callback before the close unless covered by a handler that still closes. (X5) close() of the transport facade reaches the TCP close on every normal path."
+    "(X3b) No strict decode / int() on peer bytes is reachable in the timer callback before the close unless covered by a handler that still closes. (X5) close() of the transport facade reaches the TCP close on every normal path. "
+    "(X6) The package's own structlog processors cannot raise on a lookup."
 )
 
 
